@@ -17,18 +17,17 @@ import (
 )
 
 // C32 — client IP and scheme only from trusted proxies. Line format: see coq/Model/ClientIP.v.
-// Driver "C32fixed" emits F0/F1 as trust token: the model then computes the behaviour after
-// fixes/C32-unusable-list-fails-closed.patch (select it in checks/C32.json once the fix is applied).
+// Driver "C32" emits F0/F1 as trust token = model of the current code (since /repo 4284846 only a nil slice,
+// i.e. no configured entry, means "trust every peer"). "C32prefix" emits 0/1 = model of the pre-fix code
+// (historical; only useful against a tree with 4284846 reverted).
 type c32 struct{ fixed bool }
 
 func init() {
-	register("C32", c32{})
-	register("C32fixed", c32{fixed: true})
+	register("C32", c32{fixed: true})
+	register("C32prefix", c32{})
 }
 
 func (c32) Parallel() bool { return true }
-
-const c32Finding = "C32-unusable-cidr-list-trusts-everyone"
 
 var c32Quiet sync.Once
 
@@ -627,7 +626,6 @@ func (c32) Run(in string, scratch string) Result {
 	if len(f) != 9 {
 		return Result{Out: "PARSE-ERROR", Tags: []string{"malformed"}}
 	}
-	fixedLine := strings.HasPrefix(f[0], "F")
 	trust := strings.TrimPrefix(f[0], "F") == "1"
 	var cfg []string
 	var cfgParsed []c32Cidr
@@ -754,10 +752,7 @@ func (c32) Run(in string, scratch string) Result {
 	case len(cfg) == 0:
 		tags = append(tags, "cfg-none")
 	case cfgValid == 0:
-		tags = append(tags, "cfg-all-invalid")
-		if trust && peerNum != nil && !fixedLine {
-			tags = append(tags, "kf:"+c32Finding)
-		}
+		tags = append(tags, "cfg-all-invalid") // must trust nobody (pre-fix: trusted everyone; fixed by 4284846)
 	case cfgValid < len(cfg):
 		tags = append(tags, "cfg-some-invalid")
 	default:
